@@ -258,11 +258,11 @@ def c10d(ck, prog):
             ok = bool(got) and all(re.search(rx, w) for w in got)
             ck.ob(R, "%s:%s" % (m, k), ok, f.loc(None), "" if ok else "DeserializeFilesOrField::%s answers %r for a %s value, expected /%s/: a value of the wrong kind must be an error, never a wrong value" % (m, sorted(got), k, rx),
                   how="%s => %s" % (k, "/".join(sorted(got))))
-    # several files asked as one file: only len == 1 reaches visit_map
+    # several files asked as one file: only a count of exactly one reaches visit_map
     f = prog.one(DF + "deserialize_map$")
     vm = [c for c in f.calls() if c.name == "visit_map"]
-    ok = len(vm) == 1 and guards.verify(prog, f, vm[0].bb, None, {"kind": "cmp", "op": "Eq", "const": 1, "lhs_len": True})[0]
-    ck.ob(R, "deserialize_map:exactly-one-file", ok, f.loc(vm[0].sp if vm else None), "" if ok else "a single File is produced without the test that exactly one file was submitted under the name", how="visit_map only under files.len() == 1")
+    ok = len(vm) == 1 and file_count(prog, f, vm[0].bb) == "one"
+    ck.ob(R, "deserialize_map:exactly-one-file", ok, f.loc(vm[0].sp if vm else None), "" if ok else "a single File is produced without the test that exactly one file was submitted under the name", how="visit_map only under files.len() == 1 (or pop() == Some and then is_empty())")
     n += 1
     # option: 0 => none, 1 => some, more => error
     f = prog.one(DF + "deserialize_option$")
@@ -278,11 +278,44 @@ def c10d(ck, prog):
                     vals = ("not",) + tuple(sorted(fa.excluded))
                 if fa.kind == "variant" and fa.allowed and tuple(fa.allowed)[0] in ("Text", "Files") and len(fa.allowed) == 1:
                     kind = tuple(fa.allowed)[0]
+            if kind == "Files":
+                vals = file_count(prog, f, c.bb)
             tab[(kind, c.name)] = vals
-    ok = tab.get(("Files", "visit_none")) == (0,) and tab.get(("Files", "visit_some")) == (1,) and tab.get(("Text", "visit_none")) == (0,) and (tab.get(("Text", "visit_some")) or ("",))[0] == "not"
-    ck.ob(R, "deserialize_option:table", ok, f.loc(None), "" if ok else "deserialize_option decides %r, expected files: 0 => none, 1 => some (more => error); text: empty => none, else some" % tab, how="Files: len 0 => None, 1 => Some, _ => Err; Text: len 0 => None, _ => Some")
+    ok = tab.get(("Files", "visit_none")) == "zero" and tab.get(("Files", "visit_some")) == "one" and tab.get(("Text", "visit_none")) == (0,) and (tab.get(("Text", "visit_some")) or ("",))[0] == "not"
+    ck.ob(R, "deserialize_option:table", ok, f.loc(None), "" if ok else "deserialize_option decides %r, expected files: 0 => none, 1 => some (more => error); text: empty => none, else some" % tab, how="Files: 0 => None, exactly 1 => Some, else Err; Text: len 0 => None, _ => Some")
     n += 1
     ck.floor(R, "kind decisions", n, 8)
+
+
+def file_count(prog, f, bb):
+    """what the branch facts at `bb` establish about the number of files held by the deserializer's list:
+    'one'  -- `len() == 1`, or `pop()` answered Some and an `is_empty()` evaluated after that pop answered true;
+    'zero' -- `len() == 0`, `pop()` answered None, or `is_empty()` evaluated before any pop answered true; else None"""
+    facts = guards.facts_at(f, prog, bb)
+    for fa in facts:
+        if fa.kind == "int" and fa.values is not None and set(fa.values) == {1}:
+            return "one"
+        if fa.kind == "int" and fa.values is not None and set(fa.values) == {0}:
+            return "zero"
+    if guards.verify(prog, f, bb, None, {"kind": "cmp", "op": "Eq", "const": 1, "lhs_len": True})[0]:
+        return "one"
+    if guards.verify(prog, f, bb, None, {"kind": "cmp", "op": "Eq", "const": 0, "lhs_len": True})[0]:
+        return "zero"
+    pops = {}
+    for fa in facts:
+        if fa.kind == "variant" and fa.allowed and len(fa.allowed) == 1 and fa.steps:
+            calls = [s_[1] for s_ in fa.steps if s_[0] == "call"]
+            if calls and calls[-1].name == "pop" and re.search(r"Vec::<T, A>::pop$", calls[-1].callee or ""):
+                pops[tuple(fa.allowed)[0]] = calls[-1]
+    if "None" in pops:
+        return "zero"
+    empties = [fa.call for fa in facts if fa.kind == "boolcall" and fa.truth and fa.call.name == "is_empty" and re.search(r"Vec::<T, A>::is_empty$", fa.call.callee or "")]
+    allpops = [c for c in f.calls() if re.search(r"Vec::<T, A>::pop$", c.callee or "")]
+    if "Some" in pops and any(f.dominates(pops["Some"].bb, e.bb) and e.bb != pops["Some"].bb for e in empties):
+        return "one"
+    if "Some" not in pops and any(not any(f.dominates(pc.bb, e.bb) for pc in allpops) for e in empties):
+        return "zero"
+    return None
 
 
 def c10e(ck, prog):
